@@ -12,7 +12,9 @@ CHECK = dict(
            "plain-tbb:max_threads_in_one_call": 2, "plain-omp:max_threads_in_one_call": 2,
            "plain-internal:max_threads_in_one_call": 2,
            "plain-tbb:loops_ended_by_exception": 20, "plain-tbb:loops_ended_by_cancellation": 20,
-           "plain-debug:loops_ended_by_exception": 5},
+           "plain-debug:loops_ended_by_exception": 5,
+           "plain-tbb:loops_with_named_task_object": 200, "plain-omp:loops_with_named_task_object": 200,
+           "plain-internal:loops_with_named_task_object": 200, "plain-debug:loops_with_named_task_object": 30},
     assumptions=[
         "a loop whose body throws or cancels its task group (TBB / serial backend only; the other backends terminate) is not judged "
         "for completeness; the loops issued after it from the same call sites are",
